@@ -193,6 +193,13 @@ def main(rep, ws, tier):
                             pre = regular_premises(outs)
                             if not pre: break
                             outs = [T.resolve(o, pre) for o in outs]
+                    if m['spec'] == 'axisangle':
+                        from .common import bare_length_uses
+                        raw = [S.out('a0', i * sz, sz, lt) for i in range(d * d)]
+                        nl, bl = bare_length_uses(raw, [agg.slot_in('a1', i, t) for i in range(3)], lt)
+                        rep.ob(oid + '#unit-axis', 'R09.rot', VIOLATED if (bl or nl == 0) else HOLDS,
+                               ('the axis is divided by a bare sqrt(axis.axis) (%s): for a tiny non-zero axis the squared length underflows and the rotation degenerates; Vec3::length() / normalized() must be used' % T.show(bl[0], 3)[:120]) if bl else
+                               ('no sqrt(axis.axis) found' if nl == 0 else 'the axis length is taken through Vec3::length() (tiny-length branch present)'), where)
                     bad = None; ncase = 0; rot_done = False
                     for asg, res in PC.live_cases(outs):
                         ctx, contra = PC.ctx_for(asg)
